@@ -10,7 +10,7 @@ Subset (anything else raises Unsupported and the caller reports a broken obligat
 Every number is a rational (ints are rationals with denominator 1); float literals are taken at
 their decimal value.  `self.a.b` reads become parameters `self_a_b`.
 """
-import ast, hashlib, json, os, sys
+import ast, hashlib, json, os, re, sys
 from fractions import Fraction
 
 REPO = os.environ.get("VERIF_REPO", "/repo")
@@ -873,6 +873,7 @@ class Gen:
         self.out.append(f"Definition {cls}_eqb (a b : {cls}) : bool := match a, b with {cases} => true"
                         + (" | _, _ => false" if len(members) > 1 else "") + " end.")
         self.out.append(f"Definition {cls}_members : list {cls} := [" + "; ".join(f"{cls}_{m}" for m in members) + "].")
+        self.out.append(f"Definition {cls}_names : list string := {self.slist(members)}.")
 
     def func(self, fname, qual, coqname=None, pyname=None, rettype="Q", extra_strict=None, **kw):
         node = self.find(fname, qual)
@@ -1045,6 +1046,64 @@ class Gen:
         items = ["pos:" + ast.unparse(a) for a in c.args] + [f"{k.arg}=" + ast.unparse(k.value) for k in c.keywords]
         self.out.append(f"(* {fname}:{c.lineno} {qual}: arguments of the call of {callee} *)\nDefinition {coqname} : list string := {self.slist(items)}.")
 
+    def name_chain(self, fname, qual, var, target, enum, coqname):
+        """an `if var == Enum.X.name: target = Enum.Y ... else: raise` chain inside `qual`: the list of (X, Y) pairs, in order.  Anything else in the
+        chain (another comparison, another right-hand side, a branch that does more than the one assignment) is unsupported."""
+        node = self.find(fname, qual)
+        top = [n for n in node.body if isinstance(n, ast.If) and ast.unparse(n.test).startswith(f"{var} == {enum}.")]
+        if len(top) != 1:
+            raise Unsupported(f"{qual}: expected exactly one if-chain on {var} == {enum}.<member>.name, found {len(top)}")
+        pairs = []
+        cur = top[0]
+        while True:
+            t = cur.test
+            ok = (isinstance(t, ast.Compare) and len(t.ops) == 1 and isinstance(t.ops[0], ast.Eq) and ast.unparse(t.left) == var
+                  and re.fullmatch(re.escape(enum) + r"\.(\w+)\.name", ast.unparse(t.comparators[0])))
+            if not ok:
+                raise Unsupported(f"{qual}: unsupported test in the {enum} chain: {ast.unparse(t)}")
+            x = ast.unparse(t.comparators[0]).split(".")[1]
+            if not (len(cur.body) == 1 and isinstance(cur.body[0], ast.Assign) and ast.unparse(cur.body[0].targets[0]) == target
+                    and re.fullmatch(re.escape(enum) + r"\.(\w+)", ast.unparse(cur.body[0].value))):
+                raise Unsupported(f"{qual}: unsupported branch body in the {enum} chain")
+            pairs.append((x, ast.unparse(cur.body[0].value).split(".")[1]))
+            if len(cur.orelse) == 1 and isinstance(cur.orelse[0], ast.If):
+                cur = cur.orelse[0]
+                continue
+            if not (len(cur.orelse) == 1 and isinstance(cur.orelse[0], ast.Raise)):
+                raise Unsupported(f"{qual}: the {enum} chain must end in `else: raise`")
+            break
+        lit = "[" + "; ".join(f'("{a}", "{b}")' for a, b in pairs) + "]%string"
+        self.out.append(f"(* {fname}:{top[0].lineno} {qual}: {var} == {enum}.X.name -> {target} = {enum}.Y *)\nDefinition {coqname} : list (string * string) := {lit}.")
+
+    def name_dict(self, fname, qual, target, enum, coqname):
+        """a dict literal {Enum.X.name: "<string>", ...} assigned to `target` inside `qual`: the list of (X, string) pairs"""
+        node = self.find(fname, qual)
+        hits = [n for n in ast.walk(node) if isinstance(n, ast.Assign) and len(n.targets) == 1 and ast.unparse(n.targets[0]) == target and isinstance(n.value, ast.Dict)]
+        if len(hits) != 1:
+            raise Unsupported(f"{qual}: expected one dict literal for {target}")
+        pairs = []
+        for k, v in zip(hits[0].value.keys, hits[0].value.values):
+            m = re.fullmatch(re.escape(enum) + r"\.(\w+)\.name", ast.unparse(k))
+            if not (m and isinstance(v, ast.Constant) and isinstance(v.value, str)):
+                raise Unsupported(f"{qual}: {target} holds an entry that is not {enum}.X.name: '<string>'")
+            pairs.append((m.group(1), v.value))
+        lit = "[" + "; ".join(f'("{a}", "{b}")' for a, b in pairs) + "]%string"
+        self.out.append(f"(* {fname}:{hits[0].lineno} {qual}: {target} *)\nDefinition {coqname} : list (string * string) := {lit}.")
+
+    def dict_values(self, fname, qual, coqname):
+        """(key, value expression as source text) of the dict literal returned by `qual`"""
+        node = self.find(fname, qual)
+        rets = [n for n in ast.walk(node) if isinstance(n, ast.Return) and isinstance(n.value, ast.Dict)]
+        if len(rets) != 1:
+            raise Unsupported(f"{qual}: expected one `return {{...}}`")
+        pairs = []
+        for k, v in zip(rets[0].value.keys, rets[0].value.values):
+            if not (isinstance(k, ast.Constant) and isinstance(k.value, str)):
+                raise Unsupported(f"{qual}: non-literal key")
+            pairs.append((k.value, ast.unparse(v)))
+        lit = "[" + "; ".join(f'("{a}", "{b}")' for a, b in pairs) + "]%string"
+        self.out.append(f"(* {fname}:{node.lineno} {qual}: values written *)\nDefinition {coqname} : list (string * string) := {lit}.")
+
     def schema(self, schema_file, coqname):
         path = os.path.join(PKG, "schemas", schema_file)
         with open(path) as f:
@@ -1122,6 +1181,12 @@ def build_spec(g):
     g.assign_expr("gfunction.py", "GFunction.g_function_interpolation", "tolerance", "gf_tolerance", [])
     # ---- input files: keys written by to_input()/write_input_file, keys read by the CLI loader, schema key lists ----
     g.dict_keys("media.py", "GHEFluid.to_input", "keys_fluid")
+    # the fluid named by the user -> the FluidType member stored -> the name written back; the mixture code handed to the property tables
+    g.name_chain("media.py", "GHEFluid.__init__", "fluid_str", "self.fluid_type", "FluidType", "fluid_name_chain")
+    g.name_dict("media.py", "GHEFluid.__init__", "fluid_map", "FluidType", "fluid_mixture_codes")
+    g.dict_values("media.py", "GHEFluid.to_input", "fluid_written_values")
+    g.call_args("media.py", "GHEFluid.__init__", "__init__", "fluid_super_init_args")
+    g.call_args("manager.py", "GHEManager.set_fluid", "GHEFluid", "wiring_set_fluid")
     g.dict_keys("media.py", "ThermalProperty.to_input", "keys_grout")
     g.dict_keys("media.py", "Soil.to_input", "keys_soil")
     g.dict_keys("borehole.py", "GHEBorehole.to_input", "keys_borehole")
